@@ -681,6 +681,10 @@ pub fn contract_configs(thorough: bool) -> Vec<Cfg> {
     // a configuration whose finish is refused (dimensions beyond the 16-bit sample-entry fields):
     // the muxer must count as finished after that refusal like after a success
     v.push(Cfg { width: 70_000, ..Cfg::basic(VCodec::H264, Some(ACodec::AacLc), true) });
+    // builder reconfigured: an audio selection withdrawn again with AudioCodec::None (audio calls
+    // must be refused as not configured), and one replaced by another codec
+    v.push(Cfg { audio_first: Some(oracle::model::AudioCfg { codec: ACodec::AacLc, rate: 44100, channels: 2 }), ..Cfg::basic(VCodec::H264, None, false) });
+    v.push(Cfg { audio_first: Some(oracle::model::AudioCfg { codec: ACodec::AacLc, rate: 44100, channels: 1 }), ..Cfg::basic(VCodec::H265, Some(ACodec::Opus), true) });
     v
 }
 
